@@ -68,6 +68,11 @@ type env struct {
 	touchedVal, touchedA bool
 	leanLines            int
 	lastRoots            [3]common.Hash
+	// after a "CB" (copy, then drive BOTH sides): the copy lives in twin, with its own model slot
+	slot   int
+	curSlot *int // model slot the driver currently points at (shared by both sides)
+	twin   *env
+	nCB    int
 }
 
 func newEnv(drv *vh.Driver) (*env, error) {
@@ -77,7 +82,7 @@ func newEnv(drv *vh.Driver) (*env, error) {
 	if err != nil {
 		return nil, err
 	}
-	e := &env{disk: disk, db: db, st: st, w: newWorld(), drv: drv}
+	e := &env{disk: disk, db: db, st: st, w: newWorld(), drv: drv, curSlot: new(int)}
 	if drv != nil {
 		if _, err := drv.Ask("RESET"); err != nil {
 			return nil, err
@@ -319,6 +324,14 @@ func (e *env) lean(line string) string {
 	if e.drv == nil {
 		return ""
 	}
+	if *e.curSlot != e.slot {
+		if _, err := e.drv.Ask(fmt.Sprintf("SLOT %d", e.slot)); err != nil {
+			e.fail("crash", "lean driver: %v", err)
+			e.drv = nil
+			return ""
+		}
+		*e.curSlot = e.slot
+	}
 	e.leanLines++
 	r, err := e.drv.Ask(line)
 	if err != nil {
@@ -430,6 +443,19 @@ func (e *env) exec(line string) bool {
 	f := strings.Fields(line)
 	if len(f) == 0 {
 		return false
+	}
+	if f[0] == "@1" {
+		// a line for the copy made by CB
+		if e.twin == nil || len(f) < 2 || f[1] == "CB" || f[1] == "@1" {
+			return false
+		}
+		t := e.twin
+		t.drv = e.drv
+		ok := t.exec(strings.Join(f[1:], " "))
+		e.drv = t.drv
+		e.fails = append(e.fails, t.fails...)
+		t.fails = nil
+		return ok
 	}
 	ok := false
 	if p := guarded(func() { ok = e.exec1(f, line) }); p != nil {
@@ -631,6 +657,29 @@ func (e *env) exec1(f []string, line string) bool {
 		st.UpdateValidator(nv, old)
 		e.w.vals[a] = true
 		e.touchedVal = true
+	case "VD":
+		// the in-place pattern the staking module used on PartialCopy()s (which share the Delegations slice with the
+		// stored record): edit the delegation list of a partial copy, then UpdateValidator. The model receives the
+		// resulting record; if a Copy() shares the list's backing array, the other side sees this edit.
+		if len(f) != 4 {
+			return false
+		}
+		a, ok := addrOf(f[1])
+		d, ok2 := addrOf(f[2])
+		t, ok3 := bigOf(f[3])
+		if !ok || !ok2 || !ok3 || t.Sign() < 0 {
+			return false
+		}
+		old := st.GetValidatorByMainAddr(a)
+		if old == nil {
+			return false
+		}
+		nv := old.PartialCopy()
+		nv.UpdateDelegationFrom(&state.DelegationFrom{Delegator: d, Stake: params.YOUToStake(t), Token: t})
+		st.UpdateValidator(nv, old)
+		e.touchedVal = true
+		e.lean("UV " + hx(a[:]) + " " + valFields(nv))
+		return true
 	case "SR":
 		if len(f) != 4 {
 			return false
@@ -765,6 +814,20 @@ func (e *env) exec1(f []string, line string) bool {
 			return false
 		}
 		e.doCopy(f[1] == "c")
+		return true
+	case "CB":
+		// Copy, then BOTH sides are driven (lines "@1 ..." go to the copy); each side has its own model slot
+		if e.twin != nil || e.slot != 0 {
+			return false
+		}
+		before := observe(e.w, e.st, true)
+		cp := e.st.Copy()
+		if o := observe(e.w, cp, true); o != before {
+			e.fail("oracle", "copy differs from the original right after Copy():\n orig=%s\n copy=%s", before, o)
+		}
+		e.lean("FORK 1")
+		e.twin = &env{disk: e.disk, db: e.db, st: cp, w: e.w, drv: e.drv, curSlot: e.curSlot, slot: 1}
+		e.nCB++
 		return true
 	case "RO":
 		if len(f) != 3 {
@@ -929,10 +992,28 @@ func (e *env) doReopen(disk, del bool, line string) {
 func (e *env) finish() (content string, roots [3]common.Hash) {
 	if p := guarded(func() {
 		e.exec("OBS")
+		if e.twin != nil {
+			e.exec("@1 OBS")
+		}
 		e.exec("RO mem 1")
 		e.checkFrozen()
 		content = observe(e.w, e.st, true)
 		roots = e.lastRoots
+		if t := e.twin; t != nil {
+			// the copy: same checks against its own model slot; and the original must still show its content
+			t.drv = e.drv
+			t.exec("RO mem 1")
+			t.checkFrozen()
+			e.drv = t.drv
+			e.fails = append(e.fails, t.fails...)
+			t.fails = nil
+			e.touchedA, e.touchedVal = e.touchedA || t.touchedA, e.touchedVal || t.touchedVal
+			e.nIR, e.nCM, e.nRO, e.nCP = e.nIR+t.nIR, e.nCM+t.nCM, e.nRO+t.nRO, e.nCP+t.nCP
+			if again := observe(e.w, e.st, true); again != content {
+				e.fail("oracle", "the original changed while its copy was committed:\n before=%s\n after =%s", content, again)
+			}
+			e.compareObs("original after the copy's commit")
+		}
 	}); p != nil {
 		e.fail("crash", "panic while finishing the case: %v", p)
 	}
